@@ -393,6 +393,13 @@ func c13(x *mon.Ctx) {
 		for _, v := range []int64{256, 257, 65535, 1 << 31, -1, -128, -129} {
 			add("component-out-of-range", fmt.Sprintf("comp%d=%d", pos+1, v), "error", base, withTcb(pos, world.Seq(world.OID(2, pos+1), world.Int(v))), nil)
 		}
+		// integers wider than any machine word whose LOW bits are a plausible value: 2^64+7, 2^64+200, 2^72+1, 2^128+5, 2^256+9
+		for wi, wide := range [][]byte{{1, 0, 0, 0, 0, 0, 0, 0, 7}, {1, 0, 0, 0, 0, 0, 0, 0, 200}, {1, 0, 0, 0, 0, 0, 0, 0, 0, 1}, append([]byte{1}, append(make([]byte, 15), 5)...), append([]byte{1}, append(make([]byte, 31), 9)...), {2, 0, 0, 0, 0, 0, 0, 0, 0}} {
+			{
+				_ = wi
+				add("component-wider-than-a-word", fmt.Sprintf("comp%d/%d-octets", pos+1, len(wide)), "error", base, withTcb(pos, world.Seq(world.OID(2, pos+1), world.TLV(2, wide))), nil)
+			}
+		}
 		add("component-9-byte-integer", fmt.Sprint(pos+1), "error", base, withTcb(pos, world.Seq(world.OID(2, pos+1), world.TLV(2, []byte{1, 2, 3, 4, 5, 6, 7, 8, 9}))), nil)
 		add("component-wrong-type", fmt.Sprintf("comp%d-octet-string", pos+1), "error", base, withTcb(pos, world.Seq(world.OID(2, pos+1), world.Octets([]byte{5}))), nil)
 		add("component-wrong-type", fmt.Sprintf("comp%d-boolean", pos+1), "error", base, withTcb(pos, world.Seq(world.OID(2, pos+1), world.TLV(1, []byte{0xff}))), nil)
@@ -519,6 +526,9 @@ func c13(x *mon.Ctx) {
 	}
 	for _, v := range []int64{65536, 65537, 1 << 31, 1 << 40, -1, -32768} {
 		add("pcesvn-out-of-range", fmt.Sprint(v), "error", base, withTcb(16, world.Seq(world.OID(2, 17), world.Int(v))), nil)
+	}
+	for _, wide := range [][]byte{{1, 0, 0, 0, 0, 0, 0, 0, 0x12, 0x34}, {1, 0, 0, 0, 0, 0, 0, 0, 7}, append([]byte{1}, append(make([]byte, 15), 5)...), {1, 0, 0, 0, 0, 0, 0, 0xff, 0xff}, {2, 0, 0, 0, 0, 0, 0, 0, 0}} {
+		add("pcesvn-out-of-range", fmt.Sprintf("%d-octets-%x", len(wide), wide[len(wide)-2:]), "error", base, withTcb(16, world.Seq(world.OID(2, 17), world.TLV(2, wide))), nil)
 	}
 	add("pcesvn-wrong-type", "octet-string", "error", base, withTcb(16, world.Seq(world.OID(2, 17), world.Octets([]byte{0, 5}))), nil)
 	odd := func(n int) []byte {
@@ -714,7 +724,8 @@ func c13(x *mon.Ctx) {
 	x.Require("platform-certificate-extension", 40, 0, 40)
 	x.Require("unread-field-of-any-type", 60, 0, 60)
 	x.Require("platform-certificate-wrong-type", 0, 105, 105)
-	x.Require("pcesvn-out-of-range", 0, 6, 6)
+	x.Require("pcesvn-out-of-range", 0, 11, 11)
+	x.Require("component-wider-than-a-word", 0, 18, 18)
 	x.Require("truncated", 0, 300, 300)
 	x.Require("signed-certificate", 100, 10, 300)
 	x.Extra["exhaustive_component_values"] = true
